@@ -95,7 +95,14 @@ func (r *OffsetFetchRequest) decode(pd packetDecoder, version int16) (err error)
 	var partitionCount int
 
 	if isFlexible {
-		partitionCount, err = pd.getCompactArrayLength()
+		// a compact array length of 0 is the null array (all partitions), 1 is the empty array;
+		// getCompactArrayLength gives 0 for both
+		var n uint64
+		n, err = pd.getUVarint()
+		if err == nil && n > uint64(pd.remaining())+1 {
+			err = ErrInsufficientData
+		}
+		partitionCount = int(n) - 1
 	} else {
 		partitionCount, err = pd.getArrayLength()
 	}
@@ -103,11 +110,9 @@ func (r *OffsetFetchRequest) decode(pd packetDecoder, version int16) (err error)
 		return err
 	}
 
-	if (partitionCount == 0 && version < 2) || partitionCount < 0 {
-		return nil
+	if partitionCount > 0 || (partitionCount == 0 && version >= 2) {
+		r.partitions = make(map[string][]int32, partitionCount)
 	}
-
-	r.partitions = make(map[string][]int32, partitionCount)
 	for i := 0; i < partitionCount; i++ {
 		var topic string
 		if isFlexible {
